@@ -102,3 +102,118 @@ Proof.
   - apply Qlt_le_weak in Hlt. apply Qopp_le_compat in Hlt. exact Hlt.
   - apply Qle_bool_iff in Hge. congruence.
 Qed.
+
+(* ---- pack / unpack are mutually inverse (all tables, all matrices) ---- *)
+(* a well-formed table: distinct column names, every column as long as the first one *)
+Definition wf_tab (t : stab) : Prop :=
+  NoDup (map sc_name (st_cols t)) /\ forall c, In c (st_cols t) -> length (sc_vals c) = nrows t.
+Definition header (t : stab) : list (nat * nat) := map (fun c => (sc_name c, sc_unit c)) (st_cols t).
+Definition col_names (t : stab) : list nat := map sc_name (st_cols t).
+
+Lemma get_col_in t c : NoDup (map sc_name (st_cols t)) -> In c (st_cols t) -> get_col t (sc_name c) = sc_vals c.
+Proof.
+  unfold get_col. induction (st_cols t) as [|d l IH]; intros Hnd Hin; [destruct Hin|].
+  cbn [find]. destruct (Nat.eqb (sc_name d) (sc_name c)) eqn:E.
+  - destruct Hin as [->|Hin]; [reflexivity|].
+    apply Nat.eqb_eq in E. cbn [map] in Hnd. inversion Hnd as [|x xs Hni Hnd']; subst.
+    exfalso. apply Hni. rewrite E. apply in_map. exact Hin.
+  - destruct Hin as [->|Hin]; [rewrite Nat.eqb_refl in E; discriminate|].
+    cbn [map] in Hnd. inversion Hnd; subst. apply IH; assumption.
+Qed.
+
+Lemma nth_seq_map {A} (l : list A) (d : A) : map (fun i => nth i l d) (seq 0 (length l)) = l.
+Proof.
+  induction l as [|a l IH]; [reflexivity|]. cbn [length seq map nth]. f_equal.
+  rewrite <- seq_shift, map_map. exact IH.
+Qed.
+
+(* column j of the packed matrix is the j-th requested column *)
+Lemma pack_column names t j nm :
+  nth_error names j = Some nm -> length (get_col t nm) = nrows t ->
+  map (fun r => nth j r 0%Q) (pack names t) = get_col t nm.
+Proof.
+  intros Hj Hlen. unfold pack. rewrite map_map.
+  etransitivity; [|apply (nth_seq_map (get_col t nm) 0%Q)]. rewrite Hlen.
+  apply map_ext. intros i.
+  assert (Hlt : (j < length names)%nat) by (apply nth_error_Some; congruence).
+  set (f := fun nm0 : nat => nth i (get_col t nm0) 0%Q).
+  rewrite (nth_indep _ 0%Q (f nm)) by (rewrite map_length; exact Hlt).
+  rewrite map_nth. rewrite (nth_error_nth _ _ nm Hj). reflexivity.
+Qed.
+
+Lemma rebuild_cols (col : nat -> list Q) (cols : list scol) : forall k,
+  (forall j c, nth_error cols j = Some c -> col (k + j)%nat = sc_vals c) ->
+  map (fun jc : nat * (nat * nat) => mk_scol (fst (snd jc)) (snd (snd jc)) (col (fst jc)))
+      (combine (seq k (length cols)) (map (fun c => (sc_name c, sc_unit c)) cols)) = cols.
+Proof.
+  induction cols as [|c cols IH]; intros k H; [reflexivity|].
+  cbn [length seq map combine fst snd]. f_equal.
+  - specialize (H 0%nat c eq_refl). rewrite Nat.add_0_r in H. rewrite H. destruct c; reflexivity.
+  - apply IH. intros j c' Hj. specialize (H (S j) c' Hj). rewrite <- H. f_equal. lia.
+Qed.
+
+(* unpack (pack t) = t for every well-formed table: names, units, values and metadata *)
+Theorem unpack_pack t : wf_tab t -> unpack (header t) (st_meta t) (pack (col_names t) t) = t.
+Proof.
+  intros [Hnd Hlen]. unfold unpack, header, col_names. destruct t as [cols meta]. cbn [st_cols st_meta] in *.
+  f_equal. rewrite map_length.
+  apply (rebuild_cols (fun j => map (fun r => nth j r 0%Q) (pack (map sc_name cols) (mk_stab cols meta))) cols 0).
+  intros j c Hj. cbn [Nat.add].
+  assert (Hin : In c cols) by (eapply nth_error_In; exact Hj).
+  rewrite (pack_column _ _ j (sc_name c)).
+  - apply (get_col_in (mk_stab cols meta)); assumption.
+  - rewrite nth_error_map, Hj. reflexivity.
+  - rewrite (get_col_in (mk_stab cols meta)) by assumption. apply Hlen. exact Hin.
+Qed.
+
+(* packing in any requested order: row i of the matrix lists the requested columns' i-th entries *)
+Lemma pack_shape names t : length (pack names t) = nrows t /\ forall r, In r (pack names t) -> length r = length names.
+Proof.
+  unfold pack. split; [rewrite map_length, seq_length; reflexivity|].
+  intros r Hr. apply in_map_iff in Hr. destruct Hr as [i [<- _]]. apply map_length.
+Qed.
+
+(* ---- the other direction: unpack a rectangular matrix, pack it again ---- *)
+Lemma find_combine_name (col : nat -> list Q) (hdr : list (nat * nat)) : forall k j nu,
+  NoDup (map fst hdr) -> nth_error hdr j = Some nu ->
+  find (fun c => Nat.eqb (sc_name c) (fst nu))
+       (map (fun jc : nat * (nat * nat) => mk_scol (fst (snd jc)) (snd (snd jc)) (col (fst jc))) (combine (seq k (length hdr)) hdr))
+  = Some (mk_scol (fst nu) (snd nu) (col (k + j)%nat)).
+Proof.
+  induction hdr as [|h hdr IH]; intros k j nu Hnd Hj; [destruct j; discriminate|].
+  cbn [length seq combine map find fst snd sc_name].
+  destruct j as [|j].
+  - cbn in Hj. injection Hj as ->. rewrite Nat.eqb_refl, Nat.add_0_r. reflexivity.
+  - cbn [nth_error] in Hj. cbn [map] in Hnd. inversion Hnd as [|x xs Hni Hnd']; subst.
+    destruct (Nat.eqb (fst h) (fst nu)) eqn:E.
+    + apply Nat.eqb_eq in E. exfalso. apply Hni. rewrite E. apply in_map. eapply nth_error_In; exact Hj.
+    + rewrite (IH (S k) j nu Hnd' Hj). replace (S k + j)%nat with (k + S j)%nat by lia. reflexivity.
+Qed.
+
+Lemma map_nth_seq_row (r : list Q) n : length r = n -> map (fun j => nth j r 0%Q) (seq 0 n) = r.
+Proof. intros <-. apply nth_seq_map. Qed.
+
+Theorem pack_unpack_rows hdr m rows :
+  hdr <> [] -> NoDup (map fst hdr) -> (forall r, In r rows -> length r = length hdr) ->
+  pack (map fst hdr) (unpack hdr m rows) = rows.
+Proof.
+  intros Hne Hnd Hrect. unfold pack.
+  assert (Hn : nrows (unpack hdr m rows) = length rows).
+  { unfold nrows, unpack. cbn [st_cols]. destruct hdr as [|h hdr]; [congruence|]. cbn. apply map_length. }
+  rewrite Hn.
+  transitivity (map (fun i => nth i rows []) (seq 0 (length rows))); [|apply nth_seq_map].
+  apply map_ext_in. intros i Hi. apply in_seq in Hi. destruct Hi as [_ Hi]. cbn [Nat.add] in Hi.
+  set (r := nth i rows []). assert (Hr : In r rows) by (apply nth_In; exact Hi).
+  etransitivity; [|apply (map_nth_seq_row r (length hdr) (Hrect r Hr))].
+  assert (Hh : map fst hdr = map (fun j => fst (nth j hdr (0, 0)%nat)) (seq 0 (length hdr)))
+    by (rewrite <- (map_map (fun j => nth j hdr (0, 0)%nat) fst), nth_seq_map; reflexivity).
+  rewrite Hh, map_map.
+  apply map_ext_in. intros j Hj. apply in_seq in Hj. destruct Hj as [_ Hj]. cbn [Nat.add] in Hj.
+  destruct (nth_error hdr j) as [nu|] eqn:Enu; [|apply nth_error_None in Enu; lia].
+  rewrite (nth_error_nth _ _ _ Enu).
+  unfold get_col, unpack. cbn [st_cols].
+  rewrite (find_combine_name (fun j0 => map (fun r0 => nth j0 r0 0%Q) rows) hdr 0 j nu Hnd Enu). cbn [sc_vals Nat.add].
+  set (g := fun r0 : list Q => nth j r0 0%Q).
+  rewrite (nth_indep _ 0%Q (g [])) by (rewrite map_length; exact Hi).
+  rewrite map_nth. reflexivity.
+Qed.
